@@ -102,6 +102,20 @@ Theorem C02_entry_iff :
 Proof. exact c02_entry_iff. Qed.
 Print Assumptions C02_entry_iff.
 
+(* the entries the theorems above range over are ALL entries of the document: the map
+   holds exactly the list EntriesFromRDF produced (each wrapped with the merklizer's
+   hasher), and the tree has exactly as many leaves *)
+Theorem C02_entries_stored :
+  forall (T : tparams) (Hd : hasher) (F : floats) (cfg : option hasher) (ds : dataset) (m : mz),
+  merklize_ds T Hd F cfg None ds = Ok m ->
+  exists es0,
+    entries_from_rdf F (h_prime (hasher_or Hd cfg)) ds = Ok es0 /\
+    map snd (mz_entries m) =
+      map (wrap_entry (hasher_or Hd cfg) (Some (hasher_or Hd cfg))) es0 /\
+    List.length (leaves (mz_tree m)) = List.length es0.
+Proof. exact c02_entries_stored. Qed.
+Print Assumptions C02_entries_stored.
+
 (* whenever Proof succeeds: a Value is returned exactly with an existence proof *)
 Theorem C02_value_iff_existence :
   forall (T : tparams) (m : mz) (Hd' : hasher) (p : path) (pr : proof) (ov : option value),
